@@ -257,6 +257,24 @@ pub fn run_vm(vm: &pest_vm::Vm, start: &str, input: &str) -> Value {
     add_final_view(outcome_json(r, &|r: &str| r.to_string()))
 }
 
+/// `run_vm` on a fresh VM in a thread of its own, given up after `secs` seconds (None = it did not return).
+/// Used where a parse that is known to finish under a call limit is repeated WITHOUT one: should that run
+/// not return, the harness must be able to say so instead of hanging.  The thread is left behind.
+pub fn run_vm_watchdog(text: &str, start: &str, input: &str, secs: u64) -> Option<Value> {
+    let (tx, rx) = std::sync::mpsc::channel();
+    let (text, start, input) = (text.to_string(), start.to_string(), input.to_string());
+    std::thread::Builder::new()
+        .stack_size(256 << 20)
+        .spawn(move || {
+            if let Ok(Ok((_, opt))) = guarded(|| front_end(&text)) {
+                let vm = pest_vm::Vm::new(opt);
+                let _ = tx.send(run_vm(&vm, &start, &input));
+            }
+        })
+        .ok()?;
+    rx.recv_timeout(std::time::Duration::from_secs(secs)).ok()
+}
+
 /// The real front-end on a grammar text: Ok((source rules, optimized rules)) or the rendered errors.
 pub fn front_end(text: &str) -> Result<(Vec<AstRule>, Vec<OptimizedRule>), Vec<String>> {
     use pest_meta::parser::{self, Rule};
